@@ -72,25 +72,6 @@ proof!(k16_parse_int_nonstr, 4, {
     forget(a); forget(a2); forget(a3); forget(a4);
 });
 
-//@ k16_parse_bool_nonstr props=C18,C08 tier=quick expect=pass fns=parse_bool :: parse_bool on Bool = identity; on Int/Null/unresolved: skipped
-proof!(k16_parse_bool_nonstr, 4, {
-    let b: bool = kani::any();
-    let a = one(PathAwareValue::Bool((p(), b)));
-    let r = parse_bool(&a);
-    assert!(matches!(&r, Ok(v) if v.len() == 1 && matches!(&v[0], Some(PathAwareValue::Bool((_, x))) if *x == b)));
-    forget(r);
-    let a2 = one(PathAwareValue::Int((p(), kani::any())));
-    let r2 = parse_bool(&a2);
-    assert!(matches!(&r2, Ok(v) if v.len() == 1 && v[0].is_none()));
-    forget(r2);
-    let a3 = unresolved();
-    let r3 = parse_bool(&a3);
-    assert!(matches!(&r3, Ok(v) if v.len() == 1 && v[0].is_none()));
-    kani::cover!(b);
-    forget(r3);
-    forget(a); forget(a2); forget(a3);
-});
-
 //@ k16_parse_char_int props=C18,C08 tier=quick expect=pass fns=parse_char :: parse_char on Int (any i64): the digit character for 0..9, an error otherwise - never a wrong value, never a panic
 proof!(k16_parse_char_int, 4, {
     let i: i64 = kani::any();
